@@ -282,6 +282,11 @@ class Callback(CallSpec):
       def with_comps(st2, comps):
         keys = [kv[0] for kv in st2.obj(comps).data.values()]
         ready = all(d in keys for d in deps)
+        if any(c[0] == i for c in st2.ghost.get("calls", ())):
+          # precondition of the callee: a waiter is notified at most once.  Checked here, at the call, so that an
+          # implementation that re-runs a waiter (possibly forever) is reported instead of being explored without end
+          I.check_obligation(st2, False, "call.pre:a_waiter_is_called_at_most_once", kind="post")
+          return
         st2.ghost["calls"] = tuple(st2.ghost.get("calls", ())) + ((i, ready),)
         def act(st3, a):
           if a.startswith("register"):
@@ -374,7 +379,7 @@ def _mk_register(n_waiters, fixed_new=None):
     })
   u.__name__ = "register_%swith_%d_waiters" % ("" if fixed_new is None else fixed_new + "_", n_waiters)
   u.bound = "components a, b, c; up to 2 waiters with arbitrary non-empty dependency sets; callbacks: nothing / register one of a, b, c / raise"
-  unit(P, target=CORE + "register / _try_waiters / _try_waiter", timeout_s=900)(u)
+  unit(P, target=CORE + "register / _try_waiters / _try_waiter", timeout_s=400)(u)
 
 
 def subset_cond(b, dep_choice, reg_choice):
@@ -437,7 +442,7 @@ def _mk_cwr(n_waiters):
     })
   u.__name__ = "call_when_ready_with_%d_other_waiters" % n_waiters
   u.bound = "components a, b, c; 0..1 other waiters; arbitrary dependency sets; callbacks: nothing / register / raise"
-  unit(P, target=CORE + "call_when_ready / _try_waiter", timeout_s=900)(u)
+  unit(P, target=CORE + "call_when_ready / _try_waiter", timeout_s=400)(u)
 
 
 _mk_cwr(0)
